@@ -111,6 +111,8 @@ def toy_cases(chk, n, bad_dt=False):
         days = rng.choice([1, 1, 2]) if (month, day) != (12, 31) else 1
         if (month, day) == (12, 30):
             days = min(days, 2)
+        if bad_dt and k % 5 == 1:       # windows that run past 31 December (C10: must end in an exception)
+            month, day, days = rng.choice([(12, 31, 2), (12, 30, 3), (12, 31, 3)])
         nsoil3 = rng.random() < 0.6
         raise_mod = rng.choice([0, 0, 97, 211, 53])
         s0 = rng.randint(0, 999)
@@ -128,6 +130,9 @@ def toy_cases(chk, n, bad_dt=False):
                 dt, month, day, days, 1 if nsoil3 else 0, raise_mod, s0, ';'.join(map(str, codes)))
             cases.append((line, 'err timestep []' if 'TIMESTEP' in str(e) else 'err ' + type(e).__name__))
             continue
+        codes = codes[:len(m.forcIP.temp)]     # the window Weather really cut out of the file
+        if not nsoil3 and codes:
+            codes[-1] += (-sum(codes)) % len(codes)
         recs, err, mean = simtoy.toy_run(m, codes, s0, raise_mod, nsoil3)
         line = 'sim dt=%d M=%d D=%d days=%d nsoil3=%d mean=%d raise=%d s0=%d rows=[%s]' % (
             dt, month, day, days, 1 if nsoil3 else 0, mean or 0, raise_mod, s0, ';'.join(map(str, codes)))
@@ -164,7 +169,8 @@ def run(chk):
     base_path = U.rp(U.EPW_SGP)
     base = load_epw(base_path)
     npairs = 2 if chk.tier == 'quick' else 10
-    kinds = ['after-cut', 'outside-window', 'unmodelled-columns', 'longer-window', 'nsoil<3-after-cut']
+    kinds = ['after-cut', 'outside-window', 'unmodelled-columns', 'longer-window', 'nsoil<3-after-cut',
+             'after-cut-with-missing-markers']
     bad, total, branches = 0, 0, {}
     dts = [300, 600, 48, 100, 450, 225, 150, 360]
     # corpus first: the repaired look-ahead (dt = 48 s, cut at hour 6: the step ending at
@@ -184,7 +190,23 @@ def run(chk):
             expect_upto = nh
             tol = None
             other_attrs = dict(attrs)
-            if kind == 'after-cut' or kind == 'nsoil<3-after-cut':
+            if kind == 'after-cut-with-missing-markers':
+                # EPW "missing" markers (9999 / 999999) in the first row of the window and elsewhere, in
+                # BOTH files; only rows after the cut differ. Any gap-filling must not look ahead.
+                h = rng.randint(0, nh - 2)
+                for (i, c, v) in [(first, 12, '9999'), (first, 14, '9999'), (first, 15, '9999'),
+                                  (first + min(3, h), 12, '9999'), (first + nh - 1, 14, '9999')]:
+                    rows[i][c] = v
+                src = os.path.join(work, 'srcm_%d.epw' % k)
+                save_epw(rows, src)
+                ref_path = src
+                rows = [list(r) for r in rows]
+                for i in range(first + h + 1, first + nh):
+                    for c in MODELLED:
+                        if rows[i][c] != '9999':
+                            rows[i][c] = perturb_value(rng, c, rows[i][c])
+                expect_upto = h + 1
+            elif kind == 'after-cut' or kind == 'nsoil<3-after-cut':
                 h = fixed_h if fixed_h is not None else rng.randint(0, nh - 2)
                 if kind == 'nsoil<3-after-cut':
                     # two ground-temperature depths only: deep temperature = whole-window mean.
